@@ -46,7 +46,7 @@ func loadCorpus() []string {
 	return corpusSeeds
 }
 
-var robustFrags = []string{"(", ")", "[", "]", "{", "}", "|", "*", "+", "?", "\\", "^", "$", ".", "(?", "(?<", "(?<n>", "(?'n'", "(?P<n>", "(?<-n>", "(?<a-b>", "(?(", "(?(1)", "(?=", "(?<=", "(?!", "(?<!", "(?>", "(?#", "(?i", "(?-", "(?x:", "(?n)", "\\k<", "\\k<n>", "\\1", "\\10", "\\p{", "\\p{L}", "\\P{Lu", "\\x", "\\x{", "\\u12", "\\c", "\\0", "\\b", "\\G", "\\Z", "{1,", "{2}", "{3,2}", "{99999999999}", "{0,2147483647}", "[^", "[a-", "[z-a]", "[[:alpha:]]", "[a-z-[b]]", "-[", "#", " ", "\n", "\x00", "\xff", "é", "😀", "͸", "$1", "${", "${n}", "$$"}
+var robustFrags = []string{"(", ")", "[", "]", "{", "}", "|", "*", "+", "?", "\\", "^", "$", ".", "(?", "(?<", "(?<n>", "(?'n'", "(?P<n>", "(?<-n>", "(?<a-b>", "(?(", "(?(1)", "(?=", "(?<=", "(?!", "(?<!", "(?>", "(?#", "(?i", "(?-", "(?x:", "(?n)", "\\k<", "\\k<n>", "\\1", "\\10", "\\p{", "\\p{L}", "\\P{Lu", "\\p{wb}", "\\p{Word_Break}", "\\P{sb}", "\\p{gcb=Extend}", "\\p{emoji}", "\\x", "\\x{", "\\u12", "\\c", "\\0", "\\b", "\\G", "\\Z", "{1,", "{2}", "{3,2}", "{99999999999}", "{0,2147483647}", "[^", "[a-", "[z-a]", "[[:alpha:]]", "[a-z-[b]]", "-[", "#", " ", "\n", "\x00", "\xff", "é", "😀", "͸", "$1", "${", "${n}", "$$"}
 
 func mutatePattern(r *Rng, s string) string {
 	b := []byte(s)
